@@ -19,6 +19,7 @@
 //   void final(std::vector<std::vector<long>>&); final-state lines (must not block)
 #pragma once
 #include "vsched.hpp"
+#include "vpay.hpp"
 
 #if defined(__SANITIZE_ADDRESS__)
 extern "C" void __sanitizer_set_death_callback(void (*)(void));
@@ -172,6 +173,9 @@ void run_one(const Case& cs, size_t index)
                 try {
                     rv = comp->op(t, op);
                     S().emit(K_RET, nullptr, rv);
+                }
+                catch (const VThrow&) {
+                    S().emit(K_CATCH, nullptr, 0);
                 }
                 catch (const std::exception&) {
                     S().emit(K_CATCH, nullptr, 0);
